@@ -58,6 +58,9 @@ structure St where
   wcMode : Nat := modeRW
   /-- `readOnly` of the write-cache's own file tree (only re-opened for modes with a metabase) -/
   wcStoreRO : Bool := false
+  /-- the write-cache's background flush loop (scheduler + workers, `runFlushLoop`) is running: started by `Init`,
+  stopped by `Close`; whether `Open` starts it again is the regenerated fact `wcOpen_startsFlushLoop` -/
+  wcLoop : Bool := true
   db : DB := []
   blob : List Addr := []
   wc : List Addr := []
@@ -211,9 +214,11 @@ def flushWriteCache (s : St) : St × Err :=
     let r := wcFlushAll s
     (r.1, if r.2 then .ok else .compRefused)
 
-/-- background pass of the write-cache flush workers -/
+/-- background pass of the write-cache flush workers: needs the flush loop to be running (workers exist only
+between `runFlushLoop` and `Close`) -/
 def flushTick (s : St) : St :=
   if !s.hasWC then s
+  else if !s.wcLoop then s
   else if Gen.ShardMode.flushWorker_guardRO && isRO s.wcMode then s
   else wcFlushEach s
 
@@ -393,12 +398,26 @@ def setMode (s : St) (m : Nat) (f : Fault) : St × Err :=
 /-- every component freshly opened for writing and initialized; the GC state starts anew -/
 def restartBase (s : St) : St :=
   { s with mode := modeRW, metaMode := modeRW, metaOpen := true, blobRO := false, wcMode := modeRW,
-           wcStoreRO := false, curEpoch := 0, processedEpoch := 0 }
+           wcStoreRO := false, wcLoop := Gen.ShardMode.wcInit_startsFlushLoop, curEpoch := 0, processedEpoch := 0 }
 
 /-- stop the shard and start it again on the same directory with `m` as the CONFIGURED mode: every component is
 opened for writing and initialized, then `Init` switches them to the configured mode -/
 def restart (s : St) (m : Nat) : St × Err :=
   if m == modeRW then (restartBase s, .ok) else setMode (restartBase s) m .none
+
+/-- `Shard.Close` followed by `Shard.Open` WITHOUT `Init` — what `StorageEngine.BlockExecution` /
+`ResumeExecution` do to every shard (facts `engineBlock_closesShards`, `engineResume_opensShards`,
+`engineResume_initsShards`).  `Open` opens every component for writing whatever the shard's mode is and does not
+apply the mode again: the reported mode stays, the blobstor is writable, the metabase keeps its own mode value with
+a freshly opened handle, the write-cache is back in read-write with a writable store.  The flush loop stopped by
+`Close` is started again only if `cache.Open` does so (fact `wcOpen_startsFlushLoop`) or if `Shard.Open` initializes
+components (facts `shardOpen_initsOrSetsMode`, `wcInit_startsFlushLoop`). -/
+def reopen (s : St) : St :=
+  { s with blobRO := false, metaOpen := true,
+           wcMode := if s.hasWC then modeRW else s.wcMode,
+           wcStoreRO := if s.hasWC then false else s.wcStoreRO,
+           wcLoop := Gen.ShardMode.wcOpen_startsFlushLoop ||
+             (Gen.ShardMode.shardOpen_initsOrSetsMode && Gen.ShardMode.wcInit_startsFlushLoop) }
 
 /-! ### histories -/
 
@@ -414,6 +433,10 @@ inductive Op
   | restore (cn : Nat) (hs : List Hdr)
   | setMode (m : Nat) (f : Fault)
   | restart (m : Nat)
+  /-- close every component and open it again without `Init` (engine maintenance cycle) -/
+  | reopen
+  /-- let the real background activity run for one tick of the write-cache flush scheduler -/
+  | settle
 
 /-- one operation: new state and outcome class -/
 def step (s : St) : Op → St × Err
@@ -438,6 +461,8 @@ def step (s : St) : Op → St × Err
   | .restore cn hs => restore s cn hs
   | .setMode m f => setMode s m f
   | .restart m => restart s m
+  | .reopen => (reopen s, .ok)
+  | .settle => (flushTick s, .ok)
 
 def run (s : St) (ops : List Op) : St := ops.foldl (fun st o => (step st o).1) s
 
